@@ -247,15 +247,11 @@ func init() {
 					rDone = true
 				})
 				joinAll("join receive", &rDone)
-				// the handler's own failure is legitimately logged; anything else is a violation
-				var rest []string
-				for _, e := range s.log.Errors {
-					if e == "Channel error: error: handler failed" || (len(e) > 14 && e[:14] == "Channel panic:" && contains(e, "handler boom")) {
-						continue
-					}
-					rest = append(rest, e)
+				// the handler's own failure is legitimately logged (whenever the handler thread gets there); anything else
+				// is a violation
+				s.log.allow = func(e string) bool {
+					return e == "Channel error: error: handler failed" || (len(e) > 14 && e[:14] == "Channel panic:" && contains(e, "handler boom"))
 				}
-				s.log.Errors = rest
 				c06Check(x, s, rst)
 				x.Outcome = fmt.Sprintf("panic=%v recv=%v", s.rPanic != "", rst.OK())
 				s.teardown(x)
